@@ -599,8 +599,12 @@ def _private_merge(ctx, m, rep, cl, undo_independent_only=False):
         vs = show(v)
         has_rfc = v is not None and any(s[0] == "attr" and s[2] == "RFC_1918_NETWORKS" for s in subterms(v))
         has_user = v is not None and any(s[0] == "attr" and s[2] == "preserve_addresses" for s in subterms(v))
+        none_valued = [show(x)[:60] for x in subterms(v) if x[0] == "call" and M.callee_name(x) in ("extend", "append", "update", "insert", "sort", "reverse", "add", "clear")] if v is not None else []
+        if none_valued:
+            rep.fail(cl + ".private-merged", "main[mutator-as-value]", "preserve_networks is computed from %s: list.extend/append return None, so nothing would be preserved" % none_valued, where(f_main, call.node), key=cl + ".private-merged|mutator-as-value")
+            continue
         if flag:
-            ok = has_rfc and (has_user if given else True) and not (v[0] == "call" and M.callee_name(v) in ("extend", "append", "update"))
+            ok = has_rfc and (has_user if given else True)
             rep.ob(cl + ".private-merged", "main[flag,%s]" % ("given" if given else "absent"), ok,
                    "with the flag set and --preserve-addresses %s, preserve_networks = %s; must contain the RFC 1918 networks%s" % ("given" if given else "absent", vs, " and the user's networks" if given else ""),
                    where(f_main, call.node), key="%s.private-merged|%s" % (cl, "given" if given else "absent"))
